@@ -3,6 +3,7 @@
 Boundary monitor against Biopython AND a table-driven model (both must agree with each other and with the library).
 """
 import itertools
+import random
 import os
 
 import numpy as np
@@ -42,7 +43,7 @@ def run(ctx):
     from bionumpy.encodings import alphabet_encoding as ae
     from bionumpy.sequence import get_reverse_complement, get_strand_specific_sequences, translate_dna_to_protein
     from bionumpy.datatypes import StrandedInterval, Bed6
-    from bnpmon.util import text_rows
+    from bnpmon.util import text_rows, lazy_selection
     rng = ctx.rng
     ENC = {"ascii": None, "ACGT": ae.ACGTEncoding, "ACGTn": ae.ACGTnEncoding, "ACTG": ae.ACTGEncoding, "ACTGn": ae.ACTGnEncoding}
 
@@ -62,6 +63,11 @@ def run(ctx):
         has_n = any("N" in r.upper() for r in rows)
         try:
             x = encode(inp_rows, ename)
+            if c.get("view") and not flat:
+                # the same rows as a lazy row selection of a bigger array (nothing looks at it before the call)
+                vr = random.Random(c["view"])
+                x, _ = lazy_selection(lambda rr: encode(rr, ename), rows, vr, lambda: "".join(vr.choice("ACGT") for _ in range(vr.randint(0, 4))))
+                ctx.count("lazy_selection_inputs")
         except Exception as e:
             if has_n and ename in ("ACGT", "ACTG"):
                 ctx.count("rejected_by_encoding")
@@ -99,7 +105,7 @@ def run(ctx):
         ename = rng.choice(list(ENC))
         alpha = rng.choice(["ACGT", "ACGTN", "ACGTNacgtn", "acgt"])
         rows = ["".join(rng.choice(alpha) for _ in range(rng.choice([0, 1, 2, 5, 17]))) for _ in range(rng.randint(1, 5))]
-        ctx.run_case(case_rc, {"rows": rows, "enc": ename})
+        ctx.run_case(case_rc, {"rows": rows, "enc": ename, "view": rng.randrange(1, 2 ** 30) if rng.random() < 0.3 else 0})
     ctx.sample({"reverse_complement_case": {"rows": rows, "enc": ename}})
 
     # ---- stranded extraction ----------------------------------------------------------------
@@ -177,6 +183,10 @@ def run(ctx):
         if exp != bio:
             raise AssertionError("reference models disagree: %r %r" % (exp, bio))
         x = encode(rows, ename)
+        if c.get("view"):
+            vr = random.Random(c["view"])
+            x, _ = lazy_selection(lambda rr: encode(rr, ename), rows, vr, lambda: "".join(vr.choice("ACGT") for _ in range(3 * vr.randint(0, 2))))
+            ctx.count("lazy_selection_inputs")
         try:
             res = translate_dna_to_protein(x)
         except Exception as e:
@@ -214,7 +224,7 @@ def run(ctx):
         rows = ["".join(rng.choice(codons) for _ in range(rng.choice([0, 1, 2, 5, 20]))) for _ in range(rng.randint(1, 4))]
         if rng.random() < 0.3:
             rows = [r.lower() if rng.random() < 0.5 else r for r in rows]
-        ctx.run_case(case_translate, {"rows": rows, "enc": rng.choice(["ascii", "ascii", "ACGT"])})
+        ctx.run_case(case_translate, {"rows": rows, "enc": rng.choice(["ascii", "ascii", "ACGT"]), "view": rng.randrange(1, 2 ** 30) if rng.random() < 0.3 else 0})
     check_held()
     ctx.floor("judged:translate-held", ctx.pick(100, 3000))
     ctx.floor("judged:reverse_complement", ctx.pick(300, 5000))
